@@ -15,7 +15,7 @@ TECH = {
     "C07": "bounded-exec over encoding-choice vectors; Kani contracts for ignorable chunk codes and trailing bytes",
     "C08": "Verus contracts on tile lookup / slicing / rasteriser + Kani tile word decode + bounded-exec view agreement",
     "C09": "Verus proof of compute_parents on the extracted real text (unbounded) + exhaustive execution of all forests <= 6/8 layers",
-    "C10": "exhaustive bounded exploration of chunk-kind sequences against a fold spec; Kani contract on the user-data decoder",
+    "C10": "Verus contracts on the real ParseInfo attachment state machine (add_user_data etc., unbounded) + exhaustive bounded exploration of chunk sequences for the parse_frame glue; Kani contract on the user-data decoder",
     "C11": "Kani contracts on palette decoders and 6-bit scaling + bounded-exec precedence / validation",
     "C13": "Kani contracts on reader primitives (error iff short) + every cut offset executed",
     "C14": "Kani contract on error mapping + bounded-exec scripted readers and injected I/O errors",
@@ -23,7 +23,7 @@ TECH = {
     "C16": "rustc trait solver (Send+Sync) + overflow obligations of the Verus/Kani contracts + determinism/thread sanity runs",
     "C17": "Kani: laws proved per mode from the contracts of normal/merge (callees uninterpreted) + leaf range contracts",
     "C18": "bounded-exec of the utilities against their documented behaviour",
-    "C19": "bounded-exec: three access routes compared on sprites with frames != layers",
+    "C19": "Verus contracts on the three cel constructors and the cel accessors (real text) + bounded-exec comparison of images / user data",
 }
 LEVEL_TEXT = {
     "proof": "Contract-based deductive verification of the real code: each listed obligation is a pre/postcondition (or loop invariant) on a function of /repo discharged for all inputs of its stated domain by Verus (Z3) on mechanically extracted text or by Kani (CBMC) on the compiled crate; callers are checked against callee contracts (stubs / uninterpreted functions). Obligations labelled bounded-sym (fixed payload shape, symbolic contents) or bounded-exec (executed family) are listed with their bounds in the evidence and are NOT counted as proved.",
